@@ -21,8 +21,11 @@ def run(ctx):
     vh = ctx.build("graph")
     n4 = ctx.tlc("MC_Braid", "MC_Braid_N4.cfg", timeout=1500, cache=True, subst=graph_common._salt(ctx))
     sub = verif.sample(ctx.rng, n4.replays, 400 if not ctx.thorough else 2500)
-    for k in (24, 60):
-        res = ctx.run_engine(vh, "braid", sub, opts={"twin": 1, "index": 1, "stretch": k, "flushy": 1},
+    n_cases = 0
+    for k, cnt in ((24, len(sub)), (60, len(sub) // 5)):
+        part = sub[:cnt]
+        res = ctx.run_engine(vh, "braid", part, opts={"twin": 1, "index": 1, "stretch": k, "flushy": 1},
                              tag="index-stretch%d" % k, timeout=3000)
         ctx.absorb(res, only_own=True)
-    ctx.cov["index_stretch_cases"] = 2 * len(sub)
+        n_cases += len(part)
+    ctx.cov["index_stretch_cases"] = n_cases
